@@ -85,6 +85,7 @@ def run(F, R, ctx):
     unordered_hash_rule(F, R)
     length_rule(F, R)
     identity_field_rule(F, R)
+    symbol_identity_rule(F, R)
     visited_rules(F, R)
     for v in sorted(hc):
         R.inst("C11.h", "hash arm %s is implemented" % v, hc[v][0] != "panic",
@@ -547,3 +548,40 @@ def identity_field_rule(F, R):
                        "hash differently (an equal? key is not found in a hash map / set)" % (short, short, f, v["name"], v["name"], tshort),
                        fn.loc(fn.blocks[arm].get("line")), sample={"hash_impl": lib.short_name(hs[0])})
     R.floor("C11.i", "identity fields fed into a payload's Hash", n, 1)
+
+
+def symbol_identity_rule(F, R):
+    R.rule("C11.s", "equal symbols are eq?: eq?/eqv? compare symbols by address, so every symbol that enters a program as part of "
+                    "a constant or of data read at run time must be the shared allocation the constant map hands out. The "
+                    "constant map's interning walk (ConstantMap::walk_constants, entered from add_or_get) has an arm for every "
+                    "container kind the quoted-datum converter can build (lists, vectors and — through Pair::cons — improper "
+                    "lists): a kind without an arm keeps private copies of its symbols, and (assq 'b '((a . 1) (b . 2))), "
+                    "(eq? (cadr '(a b . c)) 'b), memq and case fail on them")
+    conv = [f for n, f in F.fns.items() if re.search(r"tryfrom_visitor::\{impl ConsumingVisitor for TryFromExprKindForSteelVal\}::", n)]
+    if not conv:
+        raise CheckError("anchor lost: TryFromExprKindForSteelVal")
+    built = {"ListV"}
+    for f in conv:
+        for _, cb in lib.family_calls(F, f):
+            if re.search(r"values::lists::\{impl Pair\}::cons$", cb["callee"]):
+                built.add("Pair")
+        for _, e in lib.family_events(F, f, "agg"):
+            if e[1] == "SteelVal" and e[2] in ("VectorV", "Pair", "ListV", "HashMapV", "HashSetV"):
+                built.add(e[2])
+    wc = F.one(r"compiler::constants::\{impl ConstantMap\}::walk_constants$")
+    ag = F.one(r"compiler::constants::\{impl ConstantMap\}::add_or_get$")
+    def arms(fn):
+        out = set()
+        for sb in lib.enum_switches(fn, "SteelVal"):
+            am = lib.arm_map(fn, sb)
+            out |= {v for v, t in am.items() if v != "_" and t != am.get("_")}
+        return out
+    wa, ga = arms(wc), arms(ag)
+    R.floor("C11.s", "container kinds built by the quoted-datum converter", len(built), 2)
+    for k in sorted(built):
+        R.inst("C11.s", "constants of kind %s have their elements interned" % k, k in wa and k in ga,
+               "the quoted-datum converter builds SteelVal::%s values, but ConstantMap::%s has no arm for that kind: symbols "
+               "inside such a constant (or such data read from a port) are private allocations, and eq? / eqv? / assq / "
+               "memq / case, which compare symbols by address, do not recognise them as the symbols written in the program"
+               % (k, "walk_constants" if k not in wa else "add_or_get (the entry that decides whether to walk)"),
+               wc.loc(), sample={"walk_arms": sorted(wa), "entry_arms": sorted(ga)})
